@@ -331,6 +331,12 @@ structure RSt where
   typedGenT : List (Path × Nat) := []
   /-- per module: the last committed compilation that garbage collected it (it was the edited file) -/
   gcGenT : List (Path × Nat) := []
+  /-- the text the committed programs cache entry was computed from -/
+  progDisk : Option Disk := none
+  /-- modules that were type checked again because their text had changed while they were NOT the edited
+  file of the request (their own edit was cancelled or replaced), hence without `clear_module`, and
+  have not been garbage collected since -/
+  ungcT : List Path := []
 
 def infoOf (tbl : List (Content × Info)) (c : Content) : Info := (lookupA c tbl).getD ⟨[], []⟩
 
@@ -344,6 +350,15 @@ def closure (next : Path → List Path) : Nat → List Path → List Path → Li
 
 def progMods (c : CacheL) (root : Path) (fuel : Nat) : List Path :=
   closure (fun p => ((lookupA p c).map (·.deps)).getD []) (fuel * fuel + fuel) [] [root]
+
+/-- Modules of the program whose cached typed module is dropped by the parse pass (the text changed)
+although the request does not name them as the edited file. -/
+def retypedWithoutGc (disk : Disk) (old : CacheL) (mods : List Path) (modified : Option Path) : List Path :=
+  mods.filter fun q =>
+    modified != some q &&
+      match lookupA q old with
+      | some e => e.typed.isSome && e.hash != disk q
+      | none => false
 
 /-- One observed compilation: `fv` of the request, whether it was committed. -/
 def replayJob (tbl : List (Content × Info)) (F : Nat) (root : Path) (files : List Path)
@@ -372,7 +387,8 @@ def replayJob (tbl : List (Content × Info)) (F : Nat) (root : Path) (files : Li
     let tg := files.map fun q => (q, if mods.contains q && !(reusedPaths.contains q) then g else natOf r.typedGenT q)
     let gg := files.map fun q => (q, if modified = some q then g else natOf r.gcGenT q)
     { r with cacheT := c', view := if shown then some ⟨disk, reused, mods⟩ else r.view,
-             tokT := tok', gen := g, typedGenT := tg, gcGenT := gg }
+             tokT := tok', gen := g, typedGenT := tg, gcGenT := gg, progDisk := some disk,
+             ungcT := ((r.ungcT ++ retypedWithoutGc disk r.cacheT mods modified).filter (fun q => modified != some q)).eraseDups }
 
 /-- Files `g` reads: its submodules and the modules it imports from, transitively (present text). -/
 def readsOf (tbl : List (Content × Info)) (disk : Disk) (n : Nat) (g : Path) : List Path :=
@@ -393,7 +409,12 @@ def explain (tbl : List (Content × Info)) (files : List Path) (r : RSt) (lastRe
     if files.any (fun g => v.disk g != disk g) then
       if lastCancelled then "last_request_cancelled"
       else if lastFailed then "failed_compilation_keeps_old_view"
-      else if lastReused then "program_reused_after_uncommitted_edit"
+      else if lastReused then
+        -- the programs cache is current (a version-less request compiled the present text before): the
+        -- reuse is right, only the view was never refreshed
+        if (r.progDisk.map fun d => files.all (fun g => d g == disk g)).getD false then
+          "recompiled_without_refreshing_the_view"
+        else "program_reused_after_uncommitted_edit"
       else "recompiled_without_refreshing_the_view"
     else if v.reused.any (fun (q, snap) => snap q != disk q) then "reused_typed_module_of_changed_file"
     else if v.reused.any (fun (q, snap) =>
@@ -410,6 +431,7 @@ def explain (tbl : List (Content × Info)) (files : List Path) (r : RSt) (lastRe
       let reusedFiles := v.reused.map (·.1)
       if dl.all (fun (k, fresh, g) => (k == 'D' && fresh && reusedFiles.contains g) || (k != 'D' && tokStale g)) then
         if dl.any (fun (k, _, _) => k == 'D') then "diagnostics_of_reused_module_dropped" else "tokens_of_unmodified_file_not_rebuilt"
+      else if !r.ungcT.isEmpty then "retyped_without_garbage_collection"
       else "unexplained"
 
 /-- Would the compilation of request `fv` on the present state reuse a typed module that is stale
@@ -428,5 +450,14 @@ def jobReusesStale (tbl : List (Content × Info)) (F : Nat) (root : Path) (files
         (readsOf tbl disk n q).any (fun x => t.snap x != disk x || gcd x) ||
           files.any (fun x => gcd x && (readsOf tbl disk n x).contains q)
       | none => false
+
+/-- Does the compilation of request `fv` on the present state type check a module again without it
+having been garbage collected (or did an earlier committed one, with no collection of that module since)? -/
+def jobRetypesWithoutGc (tbl : List (Content × Info)) (F : Nat) (root : Path) (r : RSt) (fv : FV) (modified : Option Path) : Bool :=
+  let depsOf : Path → Content → List Path := fun _ c => (infoOf tbl c).deps
+  let disk := diskOf r.diskT
+  let c1 := parseTreeL depsOf disk fv F r.cacheT root
+  let mods := progMods c1 root F
+  !((r.ungcT.filter (fun q => modified != some q)) ++ retypedWithoutGc disk r.cacheT mods modified).isEmpty
 
 end SwayVerif.Cache
